@@ -103,6 +103,16 @@ var ErrReset = errors.New("read tcp: connection reset by peer")
 
 func (t *Transport) RoundTrip(req *http.Request) (*http.Response, error) {
 	simrt.Yield("simhttp.roundtrip")
+	// like the real transport: a request whose context is already done is not sent at all
+	select {
+	case <-req.Context().Done():
+		if req.Body != nil {
+			req.Body.Close()
+		}
+		simrt.Probe("http.context_done_before_send")
+		return nil, req.Context().Err()
+	default:
+	}
 	var body []byte
 	if req.Body != nil {
 		body, _ = ioutil.ReadAll(req.Body)
